@@ -275,6 +275,16 @@ def branch_oracle(case, out):
         return None
     kind, parts = st
     o = out.split(" ")
+    # the head's verdict is the any / all composition of what each branch does on its own (same feeds)
+    nchunks0 = 0 if f[2] == "-" else len(f[2].split(","))
+    alone = [ALONE.get((b, f[2], f[3])) for b in parts]
+    if parts and all(a is not None and not a.startswith("CRASH") for a in alone):
+        oks = [(a.split(" ")[1] == "T" and int(a.split(" ")[0]) == nchunks0) for a in alone]
+        want = any(oks) if kind == "plexany" else all(oks)
+        got = (o[1] == "T" and int(o[0]) == nchunks0)
+        if want != got:
+            return ("plex-verdict:%s" % kind, "%s reports %s although its branches on their own give %s (any-mode: success iff some branch succeeds; all-mode: iff every branch does)" %
+                    (f[1], "success" if got else "failure", ["ok" if x else "fail" for x in oks]))
     if o[1] != "T":
         return None
     sinks = o[2:]
